@@ -32,7 +32,9 @@ TVReset == /\ l <= Len(Rec) /\ Rec[l].ev = "reset"
            /\ cur' = Rec[l].id /\ l' = l + 1 /\ UNCHANGED <<viol, judged>>
 TVStep == /\ l <= Len(Rec) /\ Rec[l].ev = "step"
           /\ LET e == Rec[l]  ok == e.status = "ok" IN
-             /\ viol' = IF dead THEN viol
+             \* once the daemon has ended the connection (e.g. after a refused SET_LOG_BASE) only writes through the memory handle
+             \* the backend holds are still judged: the log accepted before stays in force
+             /\ viol' = IF dead /\ e.op # "write" THEN viol
                         ELSE AddViol(viol,
                                CASE e.op = "set_log_base" ->
                                       LET v == LogVerdict(table, Small(e.letter.size)) IN
